@@ -72,6 +72,36 @@ func c17Secrets(seed int64, nRandom int) []c17Secret {
 	add(new(big.Int).Lsh(big.NewInt(1), 128), "2^128")
 	add(new(big.Int).Sub(new(big.Int).Lsh(big.NewInt(1), 128), big.NewInt(1)), "2^128-1")
 	rng := gen.New(seed, 0, "C17", "secrets")
+	// secrets inside the rare windows of the GLV decomposition (rounding bit, carry out of
+	// the low limb of the rounded quotient, extreme halves): a branch on such a carry runs
+	// for 2^-64 of all scalars
+	for i := 0; i < 8; i++ {
+		v, cl := glvSteered(gen.New(seed, i, "C17", "glv-secrets"))
+		add(v, "glv-window:"+cl)
+	}
+	// ... and, constructed and re-checked with integers: the rounded quotient k*g/2^384
+	// has an all-ones low limb AND the rounding bit set (the carry really propagates),
+	// for each lattice constant of either cube root of unity
+	glvSteered(rng) // initialises glvByLambda
+	mask64 := new(big.Int).SetUint64(^uint64(0))
+	for _, c := range glvByLambda {
+		for gi, g := range []*big.Int{c.g1, c.g2} {
+			for tries, found := 0, 0; tries < 64 && found < 2; tries++ {
+				q := rng.BigBits(60)
+				q.Lsh(q, 64).Or(q, mask64)
+				num := new(big.Int).Lsh(q, 1)
+				num.Add(num, big.NewInt(1)).Mul(num, two383)
+				k := new(big.Int).Div(num, g)
+				k.Add(k, big.NewInt(1))
+				t := new(big.Int).Mul(k, g)
+				lo := new(big.Int).And(new(big.Int).Rsh(t, 384), mask64)
+				if k.Cmp(n) < 0 && lo.Cmp(mask64) == 0 && t.Bit(383) == 1 {
+					add(k, fmt.Sprintf("glv-window:rounding-carry-out-of-low-limb(g%d)", gi+1))
+					found++
+				}
+			}
+		}
+	}
 	// split-half sign combinations and public-key parities (searched, classified by the library hook / oracle)
 	if hk.HaveMul {
 		want := map[string]int{"k1+,k2+": 0, "k1+,k2-": 0, "k1-,k2+": 0, "k1-,k2-": 0}
@@ -302,6 +332,9 @@ func runC17(r *mon.Run) {
 		}, vars: 1},
 		{zeroOK: true, name: "MultiScalarMult", prep: func(s c17Secret, v int) func() {
 			l := []int{2, 3, 8}[v%3]
+			if v >= 6 {
+				l = 1 // a batch of one is delegated to the single-scalar multiply
+			}
 			ss, ps := make([]*Scalar, l), make([]*Point, l)
 			for i := range ss {
 				ss[i] = scalarFromBig(oracle.Mod(new(big.Int).Add(oracle.MulM(s.v, big.NewInt(int64(2*i+1)), n), big.NewInt(int64(i))), n))
@@ -316,7 +349,7 @@ func runC17(r *mon.Run) {
 				ps[i] = pubPoint(i)
 			}
 			return func() { new(Point).MultiScalarMult(ss, ps) }
-		}, vars: 6},
+		}, vars: 7},
 		{name: "Point.ops-on-secret-point", prep: func(s c17Secret, v int) func() {
 			Q := new(Point).ScalarBaseMult(scalarFromBig(s.v)) // secret non-identity point in a "natural" representative
 			P := pubPoint(v)
